@@ -64,8 +64,10 @@ void STUB_secp256k1_rfc6979_hmac_sha256_initialize(const secp256k1_hash_ctx *has
     for (i = 0; i < 32; i++) { rng->k[31 - i] = (unsigned char)st; st >>= 8; }
     rng->retry = 0;
 }
+static int rfc_draws;
 void STUB_secp256k1_rfc6979_hmac_sha256_generate(const secp256k1_hash_ctx *hash_ctx, secp256k1_rfc6979_hmac_sha256 *rng, unsigned char *out, size_t outlen) {
     bv256 v, st = 0; int i; (void)hash_ctx; __CPROVER_assert(outlen == 32, "32-byte draws");
+    rfc_draws++; __CPROVER_assume(rfc_draws <= 2);     /* bound: one draw in signer_commit, one in the first signing attempt (retries: probability ~2^-256, outside the claim) */
     for (i = 0; i < 32; i++) st = (st << 8) | rng->k[i];
     v = __CPROVER_uninterpreted_rfcgen(st, (unsigned)rng->retry); rng->retry++;
     __CPROVER_assume(v != 0 && (bvw)v < N);            /* bound: every draw is a valid nonce (the retry loops are cut) */
@@ -91,7 +93,10 @@ void harness_nonce_eq(void) {
     r2 = secp256k1_ecdsa_s2c_sign(&ctx, &sig, &o2, in.msg, in.key, in.rho);
     __CPROVER_assert(r1 == 1, "signer_commit succeeds");
     __CPROVER_assert(sc_bv(&gen_arg[0]) == sc_bv(&gen_arg[1]), "both derivations yield the same original nonce (msg incl. >= n, any key, any host randomness)");
-    if (r2) __CPROVER_assert(memcmp(&o1, &o2, sizeof(o1)) == 0, "opening committed to by the signer == opening of the later signature");
+    /* a signing retry (r == 0 or s == 0 on the first nonce: probability ~2^-256, reachable here only because the scalar product is an
+     * arbitrary function) legitimately moves on to the next nonce; the claim is for the first-attempt signature: 1 + 2 fixed-base multiplications */
+    if (r2 && gen_calls == 3) __CPROVER_assert(memcmp(&o1, &o2, sizeof(o1)) == 0, "opening committed to by the signer == opening of the later signature");
+    __CPROVER_assert(!(r2 && gen_calls == 3), "witness: first-attempt s2c signature");
     __CPROVER_assert(verif_error_count == 0 && verif_illegal_count == 0, "no callbacks");
     __CPROVER_assert(!r2, "witness: s2c_sign success"); __CPROVER_assert(be_val(in.msg, 32) < N, "witness: message >= n");
 }
